@@ -64,7 +64,7 @@ def run_case(case):
     try:
         R = SE.migrate(A, b_text if b_text.strip() else 'module default {}')
     except SE.Rejected as e:
-        info['status'] = 'migration-rejected'
+        info['status'] = 'migration-internal-error' if isinstance(e, SE.Crashed) else 'migration-rejected'
         info['why'] = str(e)[:100]
         return [], info
     out = []
